@@ -9,7 +9,7 @@ Oracle : 15-line reference join over the branch traces: iterate source events, w
          tuple(latest) when every branch has produced since the last tuple; combine_latest stores and
          emits tuple(latest) with None for branches that have not produced in this lifetime.
 """
-from ..common import Check, Outcome, bootstrap, norm, with_prelude, prelude_tags, shrink_prelude, PRELUDE_TAGS, PRELUDE_RULE
+from ..common import Snap, Check, Outcome, bootstrap, norm, with_prelude, prelude_tags, shrink_prelude, PRELUDE_TAGS, PRELUDE_RULE
 from .. import gen, progs, model
 from ..muxmon import lifetimes
 
@@ -49,7 +49,7 @@ class C08(Check):
                    'each mode is compared with branches run in the SAME mode, so early completion after take/first on plain observables is part of the reference',
                    'branch programs whose standalone run errors (mean(reduce) on an empty key ...) are discarded']
     ANCHORS = ['rxsci/operators/tee_map.py', 'rxsci/mux/muxconnectable.py']
-    REQUIRED_TAGS = ['plain', 'mux', 'group', 'roll', 'roll_eq', 'split', 'zip', 'merge', 'combine_latest', 'branches=2', 'branches=3', 'branches=4', 'nested-tee', 'over-256-keys', 'after-aborted-subscriptions', 'prelude:dispose', 'prelude:peek', 'a-branch-with-failing-records']
+    REQUIRED_TAGS = ['plain', 'mux', 'group', 'roll', 'roll_eq', 'split', 'zip', 'merge', 'combine_latest', 'branches=2', 'branches=3', 'branches=4', 'nested-tee', 'over-256-keys', 'after-aborted-subscriptions', 'prelude:dispose', 'prelude:peek', 'a-branch-with-failing-records', 'rx-native-branch-with-inner-observables']
     REQUIRED_OBSERVED = ['tuples_compared', 'branch_traces_recorded', 'lifetimes_checked']
 
     def generate(self, rng, tier, shard, nshards):
@@ -80,6 +80,8 @@ class C08(Check):
                 b, _ = gen.gen_pipeline(rng, 'i', rng.randint(1, 3), opts, st, opts.max_depth)
                 branches.append(b)
             items = gen.gen_items(rng, hi=rng.choice([6, 12, 30]), sorted_=(ctx == 'time_split'))
+            if plain and k % 4 == 1:
+                branches[rng.randrange(nb)] = [['rxflat']] + ([['map', 'add:1']] if rng.random() < 0.5 else [])
             dirty = None
             if k % 5 == 2 and not plain and items:
                 # one branch starts with a map whose function raises on some records; the mux errors leave the tee and
@@ -108,6 +110,8 @@ class C08(Check):
             real = branches
         tee = ['tee_map', join, real]
         out.tags += [ctx, join, 'branches=%d' % len(branches)]
+        if any(n[0] == 'rxflat' for b in branches for _, n in progs.walk(b)):
+            out.tags.append('rx-native-branch-with-inner-observables')
         if case.get('prelude') and progs.usable_prelude([tee], case['prelude']) and ctx != 'plain':
             prelude_tags(dict(case, prelude=progs.usable_prelude([tee], case['prelude'])), out)
         if any(n[0] == 'tee_map' for b in branches for _, n in progs.walk(b)):
@@ -122,7 +126,23 @@ class C08(Check):
             if got.err is not None or not got.done:
                 return out.fail('tee-errored-where-its-branches-do-not', error=repr(got.err), done=got.done, ctx=ctx)
             out.observed['lifetimes_checked'] += 1
-            return self._cmp(out, list(zip(got.pos, got.out)), want, positions=True, info={'items': items})
+            if self._cmp(out, list(zip(got.pos, got.out)), want, positions=True, info={'items': items}).failures:
+                return out
+            if ctx == 'plain' and join in ('zip', 'merge') and not case.get('prelude'):
+                # the same tee on a COLD source (rx.from_: the current-thread trampoline defers what RxPY-native operators with
+                # inner observables emit until after the source completed): zip pairs the k-th values whatever their timing,
+                # merge delivers the same multiset
+                import rx
+                from ..common import subscribe
+                cold = subscribe(rx.from_(items).pipe(*progs.build([tee] + after)), Snap())
+                out.observed['cold_source_runs_compared'] += 1
+                a, b = [norm(v) for v in cold.out], [norm(v) for v in got.out]
+                if join == 'merge':
+                    a, b = sorted(a, key=repr), sorted(b, key=repr)
+                if cold.err is not None or not cold.done or a != b:
+                    return out.fail('tee-on-a-cold-source-differs-from-the-pushed-run', join=join, error=repr(cold.err), done=cold.done,
+                                    cold=cold.out[:12], pushed=got.out[:12], items=items)
+            return out
         # keyed: lifetimes of the enclosing context
         node = list(case['ctx_node'])
         node[-1] = [tee] + after
